@@ -590,6 +590,7 @@ func allocSite(e *ev.Env, c *ev.Case, mk func() *fiber.App, input []byte, limit,
 		{"compressed-body-inflate", rename("content-encoding")},
 		{"announced-content-length", realContentLength},
 		{"announced-chunk-size", dechunk},
+		{"bind-slice-index", rename("items")}, // index keys (items.N.f, items[N][f]) for the slice of structs the handler binds
 		{"multipart-form", rename("multipart/form-data")},
 		{"typed-body", rename("content-type")},
 		{"range-header", func(in []byte) ([]byte, bool) {
@@ -888,6 +889,8 @@ func runSurvive(e *ev.Env) {
 	one("bind-negative-slice-index-query", appOpts{}, get("/ks?rid=c13&items.-1.name=x"), 200)
 	one("bind-negative-slice-index-brackets", appOpts{}, get("/ks?rid=c14&items[-1][name]=x&items[99999999999][qty]=1"), 200)
 	one("bind-negative-slice-index-cookie", appOpts{}, get("/ks?rid=c15", "Cookie: items.-1.name=x\r\n"), 200)
+	one("bind-slice-index-15999", appOpts{}, get("/ks?rid=c16&items.15999.name=x"), 200)
+	one("bind-slice-index-above-schema-limit", appOpts{}, get("/ks?rid=c17&items.16001.name=x&items.1000000.qty=1"), 200)
 	one("head-body-too-large", appOpts{}, []byte("HEAD /ks HTTP/1.1\r\nHost: x\r\nContent-Length: 99999999\r\n\r\n"), 0)
 	flashReq := func(v []byte) []byte {
 		return append(append([]byte("GET /ks?rid=c5 HTTP/1.1\r\nHost: x\r\nCookie: fiber_flash="), v...), "\r\n\r\n"...)
